@@ -52,6 +52,19 @@ extern "C" int LLVMFuzzerTestOneInput(const uint8_t* data, size_t size)
         split = R0 * 0.5 + (Rmax * 1.5 - R0 * 0.5) * fdp.ConsumeProbability<double>();
     c.putD("split", split);
     c.putU("probe_seed", fdp.ConsumeIntegral<uint32_t>());
+    // constructor: vectors, the parametric constructor (refined / anisotropic grids) or files
+    const int ctor = fdp.ConsumeIntegralInRange<int>(0, 3) % 3;
+    c.putI("ctor", ctor);
+    if (ctor == 1) {
+        const int nr_exp = fdp.ConsumeIntegralInRange<int>(2, 5);
+        c.putD("p_R0", R0);
+        c.putD("p_Rmax", Rmax);
+        c.putI("p_nr_exp", nr_exp);
+        c.putI("p_ntheta_exp", fdp.ConsumeIntegralInRange<int>(1, 6) == 1 ? -1 : fdp.ConsumeIntegralInRange<int>(2, 6));
+        c.putI("p_aniso", fdp.ConsumeIntegralInRange<int>(0, std::min(nr_exp - 1, 3)));
+        c.putI("p_div", fdp.ConsumeIntegralInRange<int>(0, 2));
+        c.putD("p_refinement", R0 + (Rmax - R0) * (0.3 + 0.6 * fdp.ConsumeProbability<double>()));
+    }
     fuzzJudge(c, runGridIndexCase(c));
     return 0;
 }
